@@ -522,8 +522,11 @@ class Interp(Arith):
 
     def st_For(self, st, fr, pc):
         n0 = len(self.raises)
-        items = self.iterate(self.ev(st.iter, fr, pc), pc)
+        itv = self.ev(st.iter, fr, pc)
         pc = self._after_raises(pc, n0)
+        if isinstance(itv, SList) and getattr(itv, "_heap", False) and 0 < len(itv.items) <= 5 and not st.orelse:
+            return self._for_live(st, fr, pc, itv)
+        items = self.iterate(itv, pc)
         saved = (fr.brk, fr.cont)
         all_brk = []
         for cond, item in items:
@@ -549,6 +552,44 @@ class Interp(Arith):
         fr.brk, fr.cont = saved
         if st.orelse:
             pc = self.exec_block(st.orelse, fr, pc)
+        return self._merge_snapshots(fr, pc, all_brk)
+
+    def _for_live(self, st, fr, pc, lst):
+        """for-loop over a list that lives in a heap field: python iterates by index over the *current* list, so a body
+        that removes / appends elements changes what the following iterations see.  Iteration k visits the k-th element
+        of the list as it is at that moment."""
+        saved = (fr.brk, fr.cont)
+        all_brk = []
+        cap = len(lst.items) + 3
+        k = 0
+        while k < len(lst.items):
+            if self.pybool(pc) is False:
+                break
+            if k >= cap:
+                self.unwind.append(z3.And(pc, self.to_bool(self.cmp_num(ast.Gt, self.len_(lst, pc), k))))
+                break
+            n = self.len_(lst, pc)
+            cond = self.to_bool(self.cmp_num(ast.Gt, n, k))
+            if self.pybool(cond) is False:
+                break
+            nr = len(self.raises)
+            item = self.slist_index(lst, k, z3.And(pc, cond))
+            del self.raises[nr:]
+            fr.brk, fr.cont = [], []
+            if self.pybool(cond) is True:
+                self.assign(st.target, item, fr, pc)
+                after = self.exec_block(st.body, fr, pc)
+                pc = self._merge_snapshots(fr, after, fr.cont)
+            else:
+                env0 = dict(fr.env)
+                pin = z3.And(pc, cond)
+                self.assign(st.target, item, fr, pin)
+                after = self.exec_block(st.body, fr, pin)
+                after = self._merge_snapshots(fr, after, fr.cont)
+                pc = self._merge_snapshots(fr, after, [(z3.And(pc, z3.Not(cond)), env0)])
+            all_brk.extend(fr.brk)
+            k += 1
+        fr.brk, fr.cont = saved
         return self._merge_snapshots(fr, pc, all_brk)
 
     def st_While(self, st, fr, pc):
